@@ -678,6 +678,14 @@ func rulePrinters(p *Prog, r *Report) {
 		// variable names are written at their positions
 		vk := rule + ":ast.(*" + f.Node + ").String:variables-at-positions"
 		okPos := false
+		if d, decided, good := printsVariables(p, fn, f); decided {
+			if good {
+				r.ok(rule, vk, p.Pos(fn.Pos()), d)
+			} else {
+				r.bad(rule, vk, p.Pos(fn.Pos()), d)
+			}
+			continue
+		}
 		for _, b := range fn.Blocks {
 			for _, instr := range b.Instrs {
 				st, ok := instr.(*ssa.Store)
@@ -995,4 +1003,69 @@ func payloadByEvaluation(p *Prog, fn *ssa.Function, kind string) (detail string,
 		return "evaluated on every ASCII character and some longer strings: the payload is the string's bytes in order", true, true
 	}
 	return "", false, false
+}
+
+// printsVariables evaluates an array node's String() on three elements of
+// which one position (each of the three in turn) is a variable, and on a node
+// with two variables: the variable's name must stand at its own position, the
+// other elements keep their texts.
+func printsVariables(p *Prog, fn *ssa.Function, f itemFormat) (detail string, decided, good bool) {
+	elemText := "§"
+	if f.Node == "BinaryNode" {
+		elemText = "0b§"
+	}
+	isBool := f.Node == "BooleanNode"
+	if isBool {
+		elemText = "F"
+	}
+	type scen struct{ vars map[string]int64 }
+	scens := []scen{{map[string]int64{"x": 0}}, {map[string]int64{"x": 1}}, {map[string]int64{"x": 2}}, {map[string]int64{"first": 0, "last": 2}}}
+	var bad []string
+	for _, sc := range scens {
+		in := NewInterp(p)
+		if f.ByteSz != 0 {
+			in.PathBind["p0.byteSize"] = int64Val(int64(f.ByteSz))
+		}
+		in.PathBind["p0.values"] = Val{K: KSlice, S: "p0.values", Len: 3}
+		var keys []Val
+		var names []string
+		for name := range sc.vars {
+			names = append(names, name)
+		}
+		sort.Strings(names)
+		want := []string{elemText, elemText, elemText}
+		for _, name := range names {
+			keys = append(keys, strVal(name))
+			in.InitBind["p0.variables["+strVal(name).String()+"]"] = int64Val(sc.vars[name])
+			want[sc.vars[name]] = name
+		}
+		in.MapKeys["p0.variables"] = keys
+		if isBool {
+			for i := 0; i < 3; i++ {
+				in.PathBind[fmt.Sprintf("p0.values[%d]", i)] = boolVal(false)
+			}
+		} else {
+			in.Bind = func(v ssa.Value, fr *frame) (Val, bool) {
+				if c, ok := v.(*ssa.Call); ok && fr.fn == fn {
+					if sc := c.Common().StaticCallee(); sc != nil && sc.Pkg != nil && sc.Pkg.Pkg.Path() == "strconv" && strings.HasPrefix(sc.Name(), "Format") {
+						return strVal("§"), true
+					}
+				}
+				return Val{}, false
+			}
+		}
+		out := in.Run(fn, defaultArgs(fn), nil)
+		rets := out.Frame.ReturnVals()
+		if len(in.Stuck) > 0 || len(rets) != 1 || rets[0][0].K != KStr || out.CanPanic {
+			return "", false, false
+		}
+		wantText := fmt.Sprintf("<%s[3] %s>", f.SML, strings.Join(want, " "))
+		if rets[0][0].S != wantText {
+			bad = append(bad, fmt.Sprintf("with the variables %v the node prints %q, expected %q", sc.vars, rets[0][0].S, wantText))
+		}
+	}
+	if len(bad) > 0 {
+		return strings.Join(firstN(bad, 3), "; "), true, false
+	}
+	return "evaluated on three elements with a variable at each position in turn and with two variables: every name is printed at its own position, the other elements keep their texts", true, true
 }
